@@ -54,22 +54,49 @@ Definition text_of (m : list N) : list N := map (fun k => if k =? brk then 32 el
 (* the text without the breaks *)
 Definition nobrk (m : list N) : list N := filter (fun k => negb (k =? brk)) m.
 
-(* wf_from q m: m (scanned from quote state q) is one statement: it ends with its only
-   ';' outside literals; literals contain no backslash, no line break and not their own
-   quote kind; breaks occur outside literals only; all runes are valid *)
-Fixpoint wf_from (q : N) (m : list N) : bool :=
+(* wf_from q esc m: m, scanned from the state (quote kind q, esc = the previous rune was a
+   backslash inside a literal) of splitStatements, is one statement:
+   * it ends with its only ';' outside literals (a ';' inside a literal, escaped or not, does not count);
+   * inside a literal a backslash and the rune after it form an escape pair: the second rune may be ANY
+     valid rune - the literal's own quote kind, another backslash, ';' - and neither closes the literal
+     nor ends the statement (splitStatements: `cur++`); the literal is closed by the first unescaped
+     occurrence of its own quote kind, so a literal cannot end in an odd number of backslashes;
+   * no line break inside a literal (hence none between a backslash and the escaped rune);
+     breaks occur outside literals only;
+   * outside literals a backslash is an ordinary rune (splitStatements gives it no meaning there:
+     `\'` outside a literal OPENS a literal);
+   * all runes are valid. *)
+Fixpoint wf_from (q : N) (esc : bool) (m : list N) : bool :=
+  match m with
+  | [] => false
+  | c :: r =>
+      if esc then valid_rune c && wf_from q false r
+      else if q =? 0 then
+        if c =? brk then wf_from 0 false r
+        else valid_rune c &&
+             (if c =? 59 then match r with [] => true | _ => false end
+              else if (c =? 39) || (c =? 34) then wf_from c false r else wf_from 0 false r)
+      else valid_rune c &&
+           (if c =? 92 then wf_from q true r
+            else if c =? q then wf_from 0 false r else wf_from q false r)
+  end.
+
+Definition wf_stmt (m : list N) : bool := wf_from 0 false m.
+
+(* the former, narrower hypothesis: literals without any backslash (kept to state that the
+   extension is conservative: Proofs/ConsoleProofs.v wf_plain_extends) *)
+Fixpoint wf_plain_from (q : N) (m : list N) : bool :=
   match m with
   | [] => false
   | c :: r =>
       if q =? 0 then
-        if c =? brk then wf_from 0 r
+        if c =? brk then wf_plain_from 0 r
         else valid_rune c &&
              (if c =? 59 then match r with [] => true | _ => false end
-              else if (c =? 39) || (c =? 34) then wf_from c r else wf_from 0 r)
-      else valid_rune c && negb (c =? 92) && (if c =? q then wf_from 0 r else wf_from q r)
+              else if (c =? 39) || (c =? 34) then wf_plain_from c r else wf_plain_from 0 r)
+      else valid_rune c && negb (c =? 92) && (if c =? q then wf_plain_from 0 r else wf_plain_from q r)
   end.
-
-Definition wf_stmt (m : list N) : bool := wf_from 0 m.
+Definition wf_plain_stmt (m : list N) : bool := wf_plain_from 0 m.
 
 (* separators between statements: breaks and printable white space *)
 Definition wf_sep (sp : list N) : bool :=
